@@ -590,3 +590,26 @@ class Pipeline:
         for x in lines[:40]:
             log("   " + x)
         return 1 if k else 0
+
+
+def first_bad_event(module, lines, cfg=None):
+    """For one rejected execution (its Reset line + events) find the first event the trace spec cannot match, by
+    validating prefixes (binary search).  Returns the 1-based event index."""
+    head = json.loads(lines[0])
+    lo, hi = 0, head["n"]          # prefix of length lo accepted, hi rejected
+    d = os.path.join(OUT, "explain-%d" % os.getpid())
+    os.makedirs(d, exist_ok=True)
+    tp = os.path.join(d, "prefix.ndjson")
+    while hi - lo > 1:
+        mid = (lo + hi) // 2
+        h2 = dict(head, n=mid)
+        with open(tp, "w") as f:
+            f.write(json.dumps(h2, separators=(",", ":")) + "\n")
+            f.write("\n".join(lines[1:1 + mid]) + "\n")
+        rej, _ = validate(module, tp, cfg)
+        if rej:
+            hi = mid
+        else:
+            lo = mid
+    shutil.rmtree(d, ignore_errors=True)
+    return hi
